@@ -77,6 +77,25 @@ def wrappers(model, res, prop=PROP, rule=RULE):
                 drv = icls.find_method(meth)
                 if drv is None:
                     raise AnalysisError('%s has no method %s' % (icls.name, meth))
+                # (0) the driver is handed the user's points: it appends them to its grid, so the values returned at those
+                # points are evaluated there; without them every point is interpolated from a grid that does not follow the
+                # waves, and the cell that holds a shock or the contact returns a blend of the two states
+                dparams = [a.arg for a in drv.node.args.args][1:]
+                if dparams:
+                    handed = [b.eval(a) for a in st.value.args] + [b.eval(k.value) for k in st.value.keywords]
+                    res.obligations += 1
+                    res.evaluations += 1
+                    res.nontrivial += 1
+                    if any(v is xn for v in handed):
+                        res.discharged += 1
+                    else:
+                        res.add(Finding(prop, rule, runm.module.relpath, runm.qualname, "%s: driver is not given the points" % wname,
+                                        "%s._run calls `%s` without the requested points although %s.%s takes them (`%s`) and its sibling "
+                                        "solver passes them: the fields are then interpolated from the driver's fixed grid, and a point in "
+                                        "the grid cell that holds a shock or the contact gets a blend of the two states (at t = 0.0025 the "
+                                        "default Sod problem returns density 0.134 just behind the shock instead of 0.266)"
+                                        % (wname, src_of(st.value)[:40], icls.name, meth, dparams[0]),
+                                        line=st.lineno, construct=src_of(st)[:100]))
                 # (a) the problem object as constructed
                 h = b.heap[inner.val.oid]
                 for k in keys:
